@@ -20,6 +20,9 @@ var recSeq = ev.New("C16", "proxy-sequences",
 		"bodies by Content-Length or chunked with extensions and trailers, Expect: 100-continue with the client really waiting, host change, later CONNECT, Connection: close, "+
 		"Basic authentication on/off with rejected attempts first, client abort) and the origin follows a script (1xx interim responses early/late, 2xx/3xx with Location/4xx/5xx, "+
 		"bodies by length/chunked+trailers/close-delimited/none, HEAD/204/304, Connection: close, silent close, truncated response); transports have drawn capacities, read caps and write cuts. "+
+		"Round 6: the proxy server behind TLS (35 %, harness client = crypto/tls over the same transport) x client certificate {not asked, required+valid, required+missing, required+untrusted}; Expect: 100-continue clients that withhold the body until 100 Continue has arrived; "+
+		"origin pauses of 1..3 virtual seconds before a final response (interim responses must reach the client before the origin goes on); Location fields: none/one/several, same host/relative/other host/other scheme/other port/unparsable, also on 201/200; "+
+		"a request for another host or CONNECT written in the same burst as a request whose response the origin delays. "+
 		"Origin and client parse what arrives with a harness RFC 9112 parser; a reference model written from the property text says which messages must/may/must not arrive and what they must contain. "+
 		"Non-trivial: at least 2 requests forwarded with pipelining window >= 2 and (a request body or a Connection-nominated field). Distinct key: methods, body kinds, length classes, statuses, end kind, window class, auth class").
 	Require("pipelined", "req-body", "req-chunked", "req-trailers", "nominated-present", "upgrade-present", "proxy-auth-present",
